@@ -140,7 +140,14 @@ static ssize_t scripted_io (int k, const void *buf, size_t len)
   sendres_t r;
   int save = c14_cur;
   ssize_t rc;
+  static long calls = 0;
   c14_cur = k;
+  if (++calls > 20000)
+    {
+      /* a broken send loop (e.g. message_length gone negative) would fill the disk before the case alarm fires */
+      out ("crash send-loop: more than 20000 send calls in one case");
+      _exit (0);
+    }
   if (u->qhead < u->qlen)
     r = u->q[u->qhead++];
   else
